@@ -1,9 +1,29 @@
 #!/bin/bash
-# Build the framework offline from files on disk: regenerate QibGen from /repo, build model, proofs, drivers.
+# Build the framework offline from files on disk: regenerate QibGen from /repo, build the models, the property modules of every
+# claimed check (each property is its own build target: property files never import one another) and the driver executables.
 set -e
 DIR="$(cd "$(dirname "$0")" && pwd)"
-export PYTHONDONTWRITEBYTECODE=1 PYTHONWARNINGS=ignore PATH="/opt/veriftools/lean/bin:$PATH"
+export PYTHONDONTWRITEBYTECODE=1 PYTHONWARNINGS=ignore PATH="/opt/veriftools/lean/bin:$PATH" OMP_NUM_THREADS=1 OPENBLAS_NUM_THREADS=1
 cd "$DIR/harness" && /venv/bin/python -W ignore -c "import translate; translate.regenerate(translate.ALL)" || echo "setup: translator failed (checks will report it)"
+cd "$DIR/harness"
+TARGETS=$(/venv/bin/python -W ignore - <<'PY'
+import importlib, sys
+sys.path.insert(0, ".")
+ready = open("READY").read().split()
+seen = []
+for pid in ready:
+    try:
+        m = importlib.import_module("props." + pid.lower())
+    except Exception as e:
+        print("setup: cannot import props." + pid.lower(), e, file=sys.stderr)
+        continue
+    for f in m.LEAN_FILES:
+        t = f[:-5].replace("/", ".")
+        if t not in seen:
+            seen.append(t)
+print(" ".join(seen))
+PY
+)
 cd "$DIR/lean"
 EXES=$(/venv/bin/python - <<'PY'
 import re, os
@@ -13,5 +33,6 @@ for m in re.finditer(r'\[\[lean_exe\]\]\s*name = "(\w+)"\s*root = "([\w.]+)"', t
         print(m.group(1))
 PY
 )
-lake build QibModel QibProofs
+lake build QibModel
+for t in $TARGETS; do lake build $t || echo "setup: property module $t does not build (its check will report it)"; done
 for e in $EXES; do lake build $e || echo "setup: driver $e does not build (its check will report it)"; done
